@@ -27,7 +27,7 @@ def check(run):
                   'zero is a statistic: in the SQL handler a value obtained from execute_scalar() or an aggregate (a minimum length of 0, '
                   'a count of 0, a minimum of 0) is compared or tested with `is None`, never used as a bare condition - a truthiness '
                   'test would turn "the shortest string is empty" into "no strings"')
-    run.floor('C08-ZERO', n, 3)
+    run.floor('C08-ZERO', n, 1)
     from .c07 import agg
     run.attempt(agg, run, p)
     from .common import nocache_rule
@@ -125,6 +125,8 @@ def total(run, p, sh):
     for name, f in sorted(sh.methods.items()):
         dicts = {t.id for s in p.own_nodes(f) if isinstance(s, ast.Assign) and isinstance(s.value, ast.Dict)
                  for t in s.targets if isinstance(t, ast.Name)}
+        # and the module's own closed tables
+        dicts |= {k for k, v in f.mod.consts.items() if isinstance(v, ast.Dict)}
         if not dicts:
             continue
         gm = GuardMap(f.node)
@@ -135,7 +137,7 @@ def total(run, p, sh):
                 from_query = any(c.startswith('self.execute') for c in clo)
                 ch = gm.chain(x) or ()
                 tested = any(g.kind == 'if' and g.pol and x.value.id in names_in(g.test) and ' in ' in ast.unparse(g.test) for g in ch)
-                run.ob('C08-TOTAL', '%s::%s::%s' % (f.rel, f.short, norm(x)[:40]), tested or not from_query,
+                run.ob('C08-TOTAL', '%s::closed-table[%s]' % (f.rel, norm(x.slice)[:40]), tested or not from_query,
                        '%s: key comes from a query result and the table is %s' % (norm(x)[:40], 'tested first' if tested else 'not total (KeyError for any other type name)'),
                        fn=f, node=x)
     run.floor('C08-TOTAL', n, 1)
@@ -156,9 +158,9 @@ def exc(run, p, sh):
                         ok = ok or any(h.type is None or 'ValueError' in ast.unparse(h.type) or 'Exception' in ast.unparse(h.type)
                                        for h in g.test.handlers)
                 site = '%s(%s)' % (norm(x.func).split('.')[-1], norm(x.args[0])[:30] if x.args else '')
-                run.ob('C08-EXC', '%s::%s::%s' % (f.rel, f.short, site), ok,
+                run.ob('C08-EXC', '%s::%s' % (f.rel, site), ok,
                        '%s in %s %s' % (norm(x)[:50], f.short, 'is guarded' if ok else 'raises ValueError for any other stored date text'), fn=f, node=x)
-    run.floor('C08-EXC', n, 2)
+    run.floor('C08-EXC', n, 1)
 
 
 def rexflags(run, p):
